@@ -11,6 +11,7 @@ mod c07;
 mod c08;
 mod c10;
 mod c11;
+mod c11full;
 mod c12;
 mod c13;
 mod c14;
